@@ -407,3 +407,26 @@ def dom_pc_canon(fm: FuncModel, n: N, within=None, numeric=None):
         f = fm.translator(tnode, numeric=numeric).f(b.test)
         fs.append(f if b.pol else logic.Not(f))
     return logic.And(*fs)
+
+
+def resolve_cached(fm, e: ast.AST, at) -> ast.AST:
+    """The expression a local stands for, looking also through a value that is *remembered next to a chosen element*
+    (`best = v; cache = (f(v), g(v))` ... `a, b = cache`): returns f(best). Anything else is returned unchanged."""
+    e2 = fm.deref(e, at)
+    if not isinstance(e2, ast.Name):
+        return e2
+    defs = fm.cfg.reaching_defs(e2.id, at)
+    if len(defs) == 1 and defs[0].kind == "stmt" and isinstance(defs[0].ast, ast.Assign) and len(defs[0].ast.targets) == 1:
+        tg, val = defs[0].ast.targets[0], defs[0].ast.value
+        if isinstance(tg, ast.Tuple) and isinstance(val, ast.Name):
+            idx = next((i for i, x in enumerate(tg.elts) if isinstance(x, ast.Name) and x.id == e2.id), None)
+            pv = fm.paired_value(val.id, defs[0])
+            if idx is not None and isinstance(pv, ast.Tuple) and idx < len(pv.elts):
+                return pv.elts[idx]
+        if isinstance(tg, ast.Name) and isinstance(val, ast.Subscript) and isinstance(val.value, ast.Name) \
+                and isinstance(val.slice, ast.Constant) and isinstance(val.slice.value, int):
+            pv = fm.paired_value(val.value.id, defs[0])
+            if isinstance(pv, ast.Tuple) and 0 <= val.slice.value < len(pv.elts):
+                return pv.elts[val.slice.value]
+    pv = fm.paired_value(e2.id, at) if len(defs) > 1 else None
+    return pv if pv is not None else e2
